@@ -14,7 +14,14 @@ ASSUMPTIONS = [
     'model = code: loop3d.rs push/close/set_area/set_perimeter checked bit-for-bit after every step of every history',
     'float vs exact evaluation away from the tolerance bands is sampled by the exact-rational oracle, not proved',
 ]
-THEOREMS = ['C04_no_panic', 'C04_refused_push_unchanged', 'C04_push_acceptance', 'C04_closed_invariants_partial']
+THEOREMS = ['C04_no_panic', 'C04_refused_push_unchanged', 'C04_push_acceptance', 'C04_closed_invariants_partial',
+            # Properties/C04_reach.v: reachable-state invariants, exact effect of push / close, corner theorems, refutations
+            'C04_reachable_invariant', 'C04_reachable_state_facts', 'C04_push_effect', 'C04_push_len_normal', 'C04_crossing_test_reads',
+            'C04_append_checked', 'C04_close_effect', 'C04_failed_close_effect', 'C04_close_ok_effect', 'C04_close_nothing_dropped_corners',
+            'C04_closed_absorbing', 'C04_interior_corners_genuine_exact', 'C04_closed_corners_genuine_partial',
+            'C04_closed_has_three_refuted', 'C04_small_loop_normal_unset_refuted', 'C04_nan_normal_by_replacement_refuted',
+            'C04_closed_collinear_exact_refuted', 'C04_closed_collinear_by_replacement_refuted', 'C04_adjacent_duplicate_refuted',
+            'C04_closed_absorbing_refuted']
 
 def streams(tier):
     if tier == 'quick': return [Stream('C04', 300)]
@@ -72,9 +79,17 @@ def crossing_class(v, p, n):
         if dist2_seg_seg2(a, b, c, d) < Fr(1, 10 ** 6) * scale2 + Fr(1, 10 ** 8): verdict = 'band'
     return (verdict, None)
 
+def straight(a, b, c):
+    """the crate's own reading of 'b is redundant between a and c' (coincident neighbours or |ab x bc| below 1e-5, 1% margin)"""
+    if max(abs(x) for x in sub(a, b)) < TOL_COL or max(abs(x) for x in sub(c, b)) < TOL_COL: return True
+    return len2(cross(sub(b, a), sub(c, b))) < TOL_COL ** 2 * Fr(101, 100)
+
 def oracle(c, st):
     prev = EMPTY
     retraced = False   # a point coinciding with the last-but-one vertex was pushed (known-finding class, see known_findings.json)
+    # a collinear REPLACEMENT of the last vertex (vertex count unchanged) left the corner BEHIND it straight: push tests
+    # (b, c, p) but never the corner (a, b, p) that the replacement exposes (known-finding classes ...:after-replacement)
+    exposed = False
     for op, s in zip(c['ops'], c['snaps']):
         cur = state(s, st)
         if cur['o'] == 99:
@@ -85,15 +100,22 @@ def oracle(c, st):
                 retraced = True
             if cur['o'] != 0 and cur['raw'] != prev['raw']:
                 return ('C04:refused-push-mutated', 'a refused push changed the loop')
+            if cur['o'] == 0 and len(cur['v']) == len(prev['v']) >= 3 and all(finite(float(x)) for q in cur['v'][-3:] for x in q) \
+                    and straight(cur['v'][-3], cur['v'][-2], cur['v'][-1]):
+                exposed = True
             if prev['closed'] and cur['o'] == 0:
                 return ('C04:push-on-closed-accepted', 'push on a closed loop was accepted')
             if not prev['closed'] and all(finite(float(x)) for x in p):
                 v = prev['v']; n = prev['n']
                 has_normal = len(v) >= 3 and len2(n) > Fr(1, 4)
+                if len(v) < 3 and cur['o'] == 31:
+                    # fewer than three vertices span no plane: no point can be off it (the normal of a corner that a spike
+                    # pop removed is still cached)
+                    return ('C04:valid-refused:stale-normal', 'a point was refused as non-coplanar by a loop of %d vertices (%s)' % (len(v), op['lab']))
                 if prev['nan_normal'] and cur['o'] == 31:
                     pl = exact_plane(v)
                     if pl is None or dot(pl[1], sub(pl[0], p)) ** 2 < Fr(1, 10 ** 18) * len2(pl[1]):
-                        return ('C04:valid-refused:nan-normal', 'the loop normal is NaN (third vertex replaced by a point coinciding with the second: %s); every further point is refused as non-coplanar' % op['lab'])
+                        return ('C04:valid-refused:nan-normal' + (':after-replacement' if exposed else ''), 'the loop normal is NaN (the third vertex was replaced by a point in line with the first two); every further point is refused as non-coplanar (%s)' % op['lab'])
                 if has_normal:
                     h = dot(n, sub(v[0], p))
                     off = abs(h)
@@ -108,8 +130,12 @@ def oracle(c, st):
                         if cls == 'clear' and cur['o'] != 0 and not rep:
                             return ('C04:valid-refused', 'a coplanar, clearly non-crossing point was refused with class %d (%s)' % (cur['o'], op['lab']))
         else:
+            if prev['closed'] and cur['raw'] != prev['raw']:
+                return ('C04:closed-loop-mutated-by-close', 'close() on a closed loop was refused (class %d) but changed the loop: %d -> %d vertices' % (cur['o'], len(prev['v']), len(cur['v'])))
             if cur['o'] == 0:
                 v = cur['v']; n = cur['n']
+                # close() dropped the last / first vertex: the wrap-around corners this creates are not tested again
+                why = ':after-retrace' if retraced else ':after-replacement' if exposed else ':after-close-drop' if len(v) < len(prev['v']) else ''
                 if not cur['closed']: return ('C04:close-ok-but-open', 'close returned Ok but the loop is open')
                 if len(v) < 3: return ('C04:closed-lt3', 'closed loop with %d vertices' % len(v))
                 m = len(v)
@@ -119,7 +145,7 @@ def oracle(c, st):
                     # centimetre-long edges that merely falls under the crate's absolute 1e-5 tolerance is not collinear
                     e1, e2 = sub(b, a), sub(cc, b)
                     if len2(cross(e1, e2)) < Fr(1, 10 ** 14) * len2(e1) * len2(e2) or len2(e1) < TOL_COL ** 2 or len2(e2) < TOL_COL ** 2:
-                        return ('C04:closed-collinear' + (':after-retrace' if retraced else ''), 'vertex %d of a closed loop is collinear with its neighbours' % i)
+                        return ('C04:closed-collinear' + why, 'vertex %d of a closed loop is collinear with its neighbours' % i)
                 f32 = bool(st is not None and st.f32)
                 # planarity is judged geometrically, against the exact plane of the widest corner of the loop itself (the stored
                 # normal is C10's business: for a sliver built from three nearly aligned f32 points it is rounding noise)
@@ -151,7 +177,7 @@ def oracle(c, st):
                                 short = cr < Fr(1, 10 ** 5) * Fr(101, 100)
                                 return ('C04:closed-self-crossing' + (':short-edges' if short else ''), 'edges %d and %d of a closed loop properly cross' % (i, j))
         if cur['closed'] and len(cur['v']) < 3:
-            return ('C04:closed-lt3', 'the loop is marked closed with %d vertices (outcome class %d)' % (len(cur['v']), cur['o']))
+            return ('C04:closed-lt3' + (':after-replacement' if exposed else ''), 'the loop is marked closed with %d vertices (outcome class %d)' % (len(cur['v']), cur['o']))
         if op['k'] == 1 and cur['o'] == 0 and not prev['closed']:
             # close may only drop the last and/or the first vertex, and only when redundant (collinear with, or
             # coincident with, its cyclic neighbours in the outline as it stood before the call)
